@@ -160,11 +160,13 @@ func runC07(c *Ctx) {
 	r.Rule("layout", "constant header bytes and length fields of the buffer at WriteTo", 60)
 	r.Rule("icmp-message", "ICMP type/code and fixed NDP option header of every message handed to icmp4SendPacket/icmp6SendPacket", 10)
 	r.Rule("dst-mac", "Ethernet destination of every emitted frame is the MAC the caller passed", 11)
+	r.Rule("options-sent", "a DHCP option map the library fills is the one it sends", 2)
+	r.Rule("dhcp-inplace", "EncodeDHCP4 does not write the options area before the option values have been read", 2)
 	r.Rule("arp-addr", "sender/target addresses the library itself builds for an ARP frame name both MAC and IP", 10)
 	r.Rule("src-mac", "Ethernet source of every emitted frame is NICInfo.HostAddr4.MAC", 11)
 	r.Rule("checksum-order", "checksums are computed after the last write they cover", 4)
 	r.Rule("hop-limit", "hop limit 255 for link-local destinations", 1)
-	r.Rule("multicast-const", "IPv6 multicast IP constants carry the matching 33:33 MAC", 5)
+	r.Rule("multicast-const", "IPv6 multicast IP constants carry the matching 33:33 MAC; service groups have their RFC values", 10)
 
 	libFns := c.P.LibFunctions()
 	// ---- send sites ----
@@ -421,6 +423,8 @@ func runC07(c *Ctx) {
 	// ---- source MAC provenance ----
 	checkSrcMAC(c, libFns)
 	checkARPAddrComplete(c, libFns)
+	checkDHCPInPlace(c)
+	checkOptionsSent(c)
 
 	// ---- checksum order ----
 	for _, m := range []string{"SetPayload", "AppendPayload"} {
@@ -643,6 +647,31 @@ func runC07(c *Ctx) {
 			r.Add(core.Obligation{Rule: "multicast-const", Key: "multicast-const " + name + " value", Func: "init", Pos: c.P.Pos(g.Pos()), Status: st,
 				Basis: fmt.Sprintf("% x", b), Detail: fmt.Sprintf("%s is % x, expected ff02::%d (RFC 4291)", name, b, last)})
 		}
+	}
+	// well-known service groups: queries of a protocol go to that protocol's group (RFC 6762 mDNS, RFC 4795 LLMNR, UPnP SSDP)
+	for name, want := range map[string][]byte{
+		"mdnsIPv4Addr":  {224, 0, 0, 251},
+		"mdnsIPv6Addr":  {0xff, 0x02, 0, 0, 0, 0, 0, 0, 0, 0, 0, 0, 0, 0, 0, 0xfb},
+		"llmnrIPv4Addr": {224, 0, 0, 252},
+		"llmnrIPv6Addr": {0xff, 0x02, 0, 0, 0, 0, 0, 0, 0, 0, 0, 0, 0, 1, 0, 3},
+		"ssdpIPv4Addr":  {239, 255, 255, 250},
+	} {
+		pk := c.P.Pkg("handlers/dns_naming")
+		if pk == nil {
+			continue
+		}
+		g, ok := pk.Members[name].(*ssa.Global)
+		if !ok {
+			continue
+		}
+		ip, okIP := ce.globalBytes(g, "IP", 0)
+		st := core.Proved
+		if !okIP || string(ip) != string(want) {
+			st = core.Violated
+		}
+		nConst++
+		r.Add(core.Obligation{Rule: "multicast-const", Key: "multicast-const " + name + " group", Func: "init", Pos: c.P.Pos(g.Pos()), Status: st,
+			Basis: fmt.Sprintf("% x", ip), Detail: fmt.Sprintf("%s is % x (constant evaluation ok=%v), the protocol's group is % x: queries sent there do not reach the responders of the intended protocol", name, ip, okIP, want)})
 	}
 	// IPv6SolicitedNode: MAC = 33:33:ff + l[13..15], IP = ff02::1:ff + l[13..15]
 	if fn := c.A.Func("", "IPv6SolicitedNode"); fn != nil {
@@ -1072,4 +1101,183 @@ func wholeStored(al *ssa.Alloc) bool {
 		}
 	}
 	return false
+}
+
+
+// checkDHCPInPlace: the DHCP server encodes its reply over the request, and the option values it echoes (client
+// identifier, parameter list) are slices of the request's own options area p[240:]. AppendOptions copies them
+// through a temporary buffer first, so EncodeDHCP4 is safe as long as it does not touch the options area before
+// that call: every write into p at an offset of 240 or more (or at an offset that is not a constant) is dominated
+// by the call to AppendOptions.
+func checkDHCPInPlace(c *Ctx) {
+	fn := c.P.Func("", "EncodeDHCP4")
+	if fn == nil || len(fn.Params) == 0 {
+		c.R.Fatal("EncodeDHCP4 not found")
+		return
+	}
+	var appendCall ssa.Instruction
+	for _, s := range callsIn(fn, nameIs("AppendOptions")) {
+		appendCall = s.(ssa.Instruction)
+	}
+	if appendCall == nil {
+		c.R.Fatal("EncodeDHCP4: call to AppendOptions not found")
+		return
+	}
+	buf := ssa.Value(fn.Params[0])
+	// offset of a slice / element expression relative to the buffer parameter: (offset, constant?, derived?)
+	var offOf func(v ssa.Value, depth int) (int64, bool, bool)
+	offOf = func(v ssa.Value, depth int) (int64, bool, bool) {
+		if depth > 8 {
+			return 0, false, false
+		}
+		if v == buf {
+			return 0, true, true
+		}
+		switch t := v.(type) {
+		case *ssa.ChangeType:
+			return offOf(t.X, depth+1)
+		case *ssa.Convert:
+			return offOf(t.X, depth+1)
+		case *ssa.Slice:
+			o, isC, der := offOf(t.X, depth+1)
+			if !der {
+				return 0, false, false
+			}
+			if t.Low == nil {
+				return o, isC, true
+			}
+			if k, ok := t.Low.(*ssa.Const); ok && k.Value != nil {
+				return o + k.Int64(), isC, true
+			}
+			return o, false, true
+		case *ssa.IndexAddr:
+			o, isC, der := offOf(t.X, depth+1)
+			if !der {
+				return 0, false, false
+			}
+			if k, ok := t.Index.(*ssa.Const); ok && k.Value != nil {
+				return o + k.Int64(), isC, true
+			}
+			return o, false, true
+		case *ssa.Phi:
+			for _, e := range t.Edges {
+				if o, isC, der := offOf(e, depth+1); der {
+					return o, isC && len(t.Edges) == 1, true
+				}
+			}
+		}
+		return 0, false, false
+	}
+	bw := newBufWrites(c)
+	kg := core.NewKeyGen()
+	n := 0
+	core.EachInstr(fn, func(i ssa.Instruction) {
+		var target ssa.Value
+		what := ""
+		switch t := i.(type) {
+		case *ssa.Store:
+			if ia, ok := t.Addr.(*ssa.IndexAddr); ok {
+				target, what = ia, "store"
+			}
+		case ssa.CallInstruction:
+			com := t.Common()
+			if b, ok := com.Value.(*ssa.Builtin); ok && b.Name() == "copy" && len(com.Args) == 2 {
+				target, what = com.Args[0], "copy into"
+			} else if callee := com.StaticCallee(); callee != nil && i != appendCall {
+				for j, a := range com.Args {
+					if bw.sum[callee][j] {
+						if _, _, der := offOf(a, 0); der {
+							target, what = a, "write by "+shortCallee(t)+" into"
+						}
+					}
+				}
+			}
+		}
+		if target == nil {
+			return
+		}
+		off, isC, der := offOf(target, 0)
+		if !der || (isC && off < 240) {
+			return // the fixed BOOTP header
+		}
+		n++
+		st := core.Proved
+		if !(appendCall.Block().Dominates(i.Block()) && (appendCall.Block() != i.Block() || core.InstrIndex(appendCall) < core.InstrIndex(i))) {
+			st = core.Violated
+		}
+		key := strings.TrimSuffix(kg.Key("dhcp-inplace EncodeDHCP4 "+what+" "+norm(target)), "#0")
+		c.R.Add(core.Obligation{Rule: "dhcp-inplace", Key: key, Func: core.FuncName(fn), Pos: c.P.Pos(core.PosOf(i)), Status: st,
+			Basis: "after AppendOptions has read the option values",
+			Detail: "EncodeDHCP4 writes the options area (" + norm(target) + ") before AppendOptions has read the option values: a reply encoded in place over the request wipes the values it is about to echo (client identifier, parameter list)"})
+	})
+	if n == 0 {
+		c.R.Add(core.Obligation{Rule: "dhcp-inplace", Key: "dhcp-inplace EncodeDHCP4 writes", Func: core.FuncName(fn), Status: core.Undecided, Detail: "no write into the options area of EncodeDHCP4 was recognised"})
+	}
+}
+
+
+// checkOptionsSent: a packet.DHCP4Options map that a function of the DHCP handler creates and fills must reach a call
+// (the encoder or a sender); a map that is only ever assigned into was meant to be sent and is not (the message
+// leaves without its server identifier / client identifier).
+func checkOptionsSent(c *Ctx) {
+	kg := core.NewKeyGen()
+	for _, fn := range c.P.LibFunctions() {
+		if fn.Pkg == nil || fn.Pkg.Pkg.Name() != "dhcp4_spoofer" {
+			continue
+		}
+		core.EachInstr(fn, func(i ssa.Instruction) {
+			mk, ok := i.(*ssa.MakeMap)
+			if !ok || !strings.HasSuffix(mk.Type().String(), "packet.DHCP4Options") || mk.Referrers() == nil {
+				return
+			}
+			filled, used := 0, false
+			var visit func(v ssa.Value, depth int)
+			visit = func(v ssa.Value, depth int) {
+				if depth > 4 || v.Referrers() == nil {
+					return
+				}
+				for _, r := range *v.Referrers() {
+					switch t := r.(type) {
+					case *ssa.MapUpdate:
+						if t.Map == v {
+							filled++
+						} else {
+							used = true
+						}
+					case *ssa.DebugRef:
+					case *ssa.Phi:
+						visit(t, depth+1)
+					case *ssa.Store:
+						// kept in a variable (captured by a closure, returned later): follow loads of that variable
+						if al, ok := t.Addr.(*ssa.Alloc); ok && al.Referrers() != nil {
+							for _, rr := range *al.Referrers() {
+								if ld, ok := rr.(*ssa.UnOp); ok {
+									visit(ld, depth+1)
+								}
+								if _, ok := rr.(*ssa.MakeClosure); ok {
+									used = true
+								}
+							}
+						} else {
+							used = true
+						}
+					default:
+						used = true
+					}
+				}
+			}
+			visit(mk, 0)
+			if filled == 0 {
+				return
+			}
+			st := core.Proved
+			if !used {
+				st = core.Violated
+			}
+			key := strings.TrimSuffix(kg.Key("options-sent "+core.FuncName(fn)), "#0")
+			c.R.Add(core.Obligation{Rule: "options-sent", Key: key, Func: core.FuncName(fn), Pos: c.P.Pos(mk.Pos()), Status: st,
+				Basis: fmt.Sprintf("%d options assigned; the map reaches a call", filled),
+				Detail: fmt.Sprintf("%s fills a DHCP option map with %d options and never passes it on: the message is sent without them", core.FuncName(fn), filled)})
+		})
+	}
 }
